@@ -125,13 +125,13 @@ def expected_peaks_many(vol, inten, omegas):
     return out
 
 
-def run_sequence(li_mod, frames, inten, omegas, thr=0.5):
-    """frames: bool array (F,S,Fa). Returns parsed rows (list of dict)."""
+def run_sequence(li_mod, frames, inten, omegas, thr=0.5, bg=0.0):
+    """frames: bool array (F,S,Fa). Returns parsed rows (list of dict).  bg: value of the pixels that are not in a blob (not above thr)."""
     F = frames.shape[0]
     sink = Sink()
     li = li_mod.labelimage(frames.shape[1:], fileout=sink, sptfile=Sink())
     for f in range(F):
-        data = np.where(frames[f], inten[f], 0.0).astype(np.float32)
+        data = np.where(frames[f], inten[f], bg).astype(np.float32)
         li.peaksearch(data, thr, float(omegas[f]))
         li.mergelast()
     li.finalise()
@@ -250,6 +250,11 @@ def _run_seq(desc):
             exp, multi = expected_peaks(frames, inten * scale, omegas)
             rows = run_sequence(labelimage, frames, inten * scale, omegas, thr=0.5 * scale)
             compare(sh, case, rows, exp)
+            if scale == 1.0 and (n * F <= 12 or (q + q // nimg) % 4 == 2):
+                # the background sits exactly AT the threshold (integer counts searched with a threshold inside the background range):
+                # those pixels are not above it, the peaks are the same
+                rows = run_sequence(labelimage, frames, inten, omegas, thr=0.5, bg=0.5)
+                compare(sh, dict(case, background_equals_threshold=True), rows, exp)
         sh.evaluations += 1
         if multi:
             sh.nontrivial += 1
@@ -509,7 +514,7 @@ def replay(case):
         omegas = 10.0 + case["omega_step"] * np.arange(F)
         scale = case.get("intensity_scale", 1.0)
         exp, multi = expected_peaks(frames, inten * scale, omegas)
-        rows = run_sequence(labelimage, frames, inten * scale, omegas, thr=0.5 * scale)
+        rows = run_sequence(labelimage, frames, inten * scale, omegas, thr=0.5 * scale, bg=0.5 if case.get("background_equals_threshold") else 0.0)
         compare(sh, case, rows, exp)
         return (not sh.violations), {"rows": rows, "expected": exp, "violations": sh.violations}
     if case["kind"] == "peaksearcher":
